@@ -209,6 +209,32 @@ Theorem C17_camel_name_starts_cap : forall e c r,
 Proof. exact camel_name_starts_cap. Qed.
 Print Assumptions C17_camel_name_starts_cap.
 
+Theorem C17_list_path : forall e,
+  e_base_url e = [] -> ident (e_name e) = true -> no_colon (e_pkg e) = true ->
+  Forall (fun k => ident (uf_name (k_def k)) = true) (e_keys e) ->
+  nth 1 (query_paths e) [] = query_base e ++ flat_map (fun u => 47 :: brace u) (list_keys e)
+  /\ list_keys e = map k_def (filter (fun k => is_key_field (k_def k) && k_shard k) (e_keys e)).
+Proof. exact list_path. Qed.
+Print Assumptions C17_list_path.
+
+(* the generated names never collide with each other; with distinct UpperCamel event names
+   the event oneof's options are distinct as well, so events <-> options is a bijection *)
+Theorem C17_generated_names_distinct : forall e,
+  NoDup [component_name e (bs "Keys"); component_name e (bs "Data"); component_name e (bs "Status");
+         component_name e (bs "State"); component_name e (bs "EventType"); component_name e (bs "Event")]
+  /\ NoDup [query_prefix e ++ bs "GetRequest"; query_prefix e ++ bs "GetResponse";
+            query_prefix e ++ bs "ListRequest"; query_prefix e ++ bs "ListResponse";
+            query_prefix e ++ bs "EventsRequest"; query_prefix e ++ bs "EventsResponse"].
+Proof. exact generated_names_distinct. Qed.
+Print Assumptions C17_generated_names_distinct.
+
+Theorem C17_event_options_distinct : forall e,
+  Forall (fun ev => upper_word (ev_name ev) = true) (e_events e) ->
+  NoDup (map ev_name (e_events e)) ->
+  NoDup (map f_json (m_fields (event_type_msg e))) /\ NoDup (map fst (m_nested (event_type_msg e))).
+Proof. exact event_options_distinct. Qed.
+Print Assumptions C17_event_options_distinct.
+
 (* 7. statuses are numbered 1..n in declaration order after <PREFIX>UNSPECIFIED = 0
       (the hypothesis excludes a first status that itself ends in UNSPECIFIED, which
       visitEnumNode puts in slot 0) *)
